@@ -19,6 +19,12 @@ pub enum Kind {
     SliderLong,
     /// 140 px, 5 spans (500 ms per span at the default timing / velocity)
     Slider5,
+    /// 10 px, 1 span: travel time of a few milliseconds
+    SliderTiny,
+    /// a path without length (control point on the head), 4 repeats
+    SliderZeroRep,
+    /// perfect-circle curve through three points, 100 px, 1 span
+    SliderPerfect,
     /// spinner of the given length in ms
     Spinner(u32),
     /// hold note (type 128) of the given length in ms
@@ -193,6 +199,9 @@ impl MapSpec {
                 Kind::Buzz => slider_end(4.0, 35.0),
                 Kind::SliderLong => slider_end(1.0, 280.0),
                 Kind::Slider5 => slider_end(5.0, 140.0),
+                Kind::SliderTiny => slider_end(1.0, 10.0),
+                Kind::SliderZeroRep => t,
+                Kind::SliderPerfect => slider_end(1.0, 100.0),
                 Kind::Spinner(len) | Kind::Hold(len) => t + i64::from(len),
             };
             match o.pos {
@@ -244,6 +253,15 @@ impl MapSpec {
                 }
                 Kind::Slider5 => {
                     let _ = writeln!(s, "{x},{y},{t},2,{hs},L|{}:{y},5,140", x + 140);
+                }
+                Kind::SliderTiny => {
+                    let _ = writeln!(s, "{x},{y},{t},2,{hs},L|{}:{y},1,10", x + 10);
+                }
+                Kind::SliderZeroRep => {
+                    let _ = writeln!(s, "{x},{y},{t},2,{hs},L|{x}:{y},4,0");
+                }
+                Kind::SliderPerfect => {
+                    let _ = writeln!(s, "{x},{y},{t},2,{hs},P|{}:{}|{}:{y},1,100", x + 50, y + 30, x + 95);
                 }
                 Kind::Spinner(len) => {
                     let _ = writeln!(s, "256,192,{t},12,{hs},{}", t + i64::from(len));
